@@ -45,12 +45,9 @@ Proof.
 Qed.
 
 Lemma sr25519_prefix_refuted_all :
-  (* VerifyDeprecated as found rejects a schnorrkel 0.1.1 signature Substrate accepts ... *)
+  (* VerifyDeprecated as found rejects a schnorrkel 0.1.1 signature Substrate accepts *)
   (exists pk msg sig, sr25519_verify_deprecated_ref pk msg sig = true
                       /\ sr25519_verify_deprecated_prefix pk sig msg = VFail)
-  (* ... and accepts a current-scheme signature without the marker bit, which Substrate rejects *)
-  /\ (exists pk msg sig, sr25519_verify_deprecated_ref pk msg sig = false
-                         /\ sr25519_verify_deprecated_prefix pk sig msg = VOk)
   (* Verify as found refuses the identity key *)
   /\ (exists pk msg sig, sr25519_verify_ref pk msg sig = true
                          /\ sr25519_verify_signature_prefix pk sig msg = VErr)
@@ -65,7 +62,6 @@ Lemma sr25519_prefix_refuted_all :
                          /\ host_sr25519_verify_v2_prefix pk msg sig = true).
 Proof.
   split; [exists old1_pk, old1_msg, old1_sig; exact (conj w1a w1c)|].
-  split; [exists crust_pk, crust_msg, crust_sig_unmarked; exact (conj w2a w2b)|].
   split; [exists zero_pk, crust_msg, zero_sig; exact (conj w3a w3b)|].
   split; [exists zero_pk, crust_msg, forged_zero_sig_unmarked; exact (conj w4b w4a)|].
   split; [exact host_v1_prefix_ignores_signature|].
